@@ -79,6 +79,18 @@ func split(p string) []string {
 	return segs
 }
 
+// needDir: the spelling demands a directory (trailing "/" or "/.").
+func needDir(p string) bool {
+	n := len(p)
+	if n == 0 {
+		return false
+	}
+	if p[n-1] == '/' {
+		return true
+	}
+	return p[n-1] == '.' && (n == 1 || p[n-2] == '/')
+}
+
 func (n *node) child(name string) *node {
 	for _, k := range n.kids {
 		if k.name == name {
@@ -133,11 +145,27 @@ func Stat(p string) (os.FileInfo, error) {
 	if err != nil {
 		return nil, err
 	}
-	name := "/"
-	if len(segs) > 0 {
-		name = segs[len(segs)-1]
+	if needDir(p) && !n.dir {
+		return nil, ErrNotDir
 	}
-	return infoOf(n, name), nil
+	return infoOf(n, rawBase(p)), nil
+}
+
+// rawBase mirrors os.Stat's name: the last element of the path as spelled
+// (trailing slashes removed, "." and ".." kept).
+func rawBase(p string) string {
+	end := len(p)
+	for end > 1 && p[end-1] == '/' {
+		end--
+	}
+	start := end
+	for start > 0 && p[start-1] != '/' {
+		start--
+	}
+	if start == end {
+		return "/"
+	}
+	return p[start:end]
 }
 
 func MkdirAll(p string, perm os.FileMode) error {
@@ -186,6 +214,12 @@ func Remove(p string) error {
 	if n == nil {
 		return ErrNotExist
 	}
+	if needDir(p) && !n.dir {
+		return ErrNotDir
+	}
+	if p[len(p)-1] == '.' {
+		return ErrInvalid // rmdir("d/.")
+	}
 	if n.dir && len(n.kids) > 0 {
 		return ErrNotEmpty
 	}
@@ -195,6 +229,9 @@ func Remove(p string) error {
 
 func RemoveAll(p string) error {
 	logPath(p)
+	if n := len(p); n > 0 && p[n-1] == '.' && (n == 1 || p[n-2] == '/') {
+		return ErrInvalid // os.RemoveAll refuses paths ending in "."
+	}
 	segs := split(p)
 	if len(segs) == 0 {
 		root.kids = nil
@@ -244,11 +281,17 @@ func OpenFile(p string, flag int, perm os.FileMode) (*os.File, error) {
 			if flag&oCREATE == 0 {
 				return nil, ErrNotExist
 			}
+			if needDir(p) {
+				return nil, ErrIsDir
+			}
 			n = &node{name: segs[len(segs)-1]}
 			parent.kids = append(parent.kids, n)
 		} else if flag&oCREATE != 0 && flag&oEXCL != 0 {
 			return nil, ErrExist
 		}
+	}
+	if needDir(p) && !n.dir {
+		return nil, ErrNotDir
 	}
 	if n.dir && wr {
 		return nil, ErrIsDir
@@ -417,6 +460,9 @@ func ReadFile(p string) ([]byte, error) {
 	if n.dir {
 		return nil, ErrIsDir
 	}
+	if needDir(p) {
+		return nil, ErrNotDir
+	}
 	return append([]byte{}, n.data...), nil
 }
 
@@ -455,6 +501,9 @@ func Walk(rootPath string, fn func(path string, info os.FileInfo, err error) err
 	logPath(rootPath)
 	segs := split(rootPath)
 	n, err := walkTo(segs)
+	if err == nil && needDir(rootPath) && !n.dir {
+		err = ErrNotDir
+	}
 	if err != nil {
 		return fn(rootPath, nil, err)
 	}
@@ -469,6 +518,18 @@ func Walk(rootPath string, fn func(path string, info os.FileInfo, err error) err
 	return err
 }
 
+// cleanJoin mirrors filepath.Join (lexically cleaned result).
+func cleanJoin(p, name string) string {
+	out := ""
+	for _, s := range split(p + "/" + name) {
+		if out != "" || (len(p) > 0 && p[0] == '/') {
+			out += "/"
+		}
+		out += s
+	}
+	return out
+}
+
 // SkipDir is returned by the engine in place of filepath.SkipDir.
 var SkipDir = errors.New("skip this directory")
 
@@ -480,10 +541,7 @@ func walk(p string, n *node, name string, fn func(path string, info os.FileInfo,
 		return err
 	}
 	for _, k := range sortedKids(n) {
-		kp := p + "/" + k.name
-		if len(p) > 0 && p[len(p)-1] == '/' {
-			kp = p + k.name
-		}
+		kp := cleanJoin(p, k.name)
 		if err := walk(kp, k, k.name, fn); err != nil {
 			if !k.dir || err != SkipDir {
 				return err
